@@ -2080,7 +2080,7 @@ def ob_multi_job_scan(ctx, k):
 # ---------------------------------------------------------------------------------------------------------------------
 # end-to-end: the real evaluator over the real time-window constraint and the real schedule update (shadow tour)
 
-def ob_insertion_e2e(ctx, k, n_tasks, closed=True, bits=16, n_tw=1):
+def ob_insertion_e2e(ctx, k, n_tasks, closed=True, bits=16, n_tw=1, n_places=1):
     """C06 end to end, incl. multi-task jobs: `eval_single` / `eval_multi` (real MIR) where `GoalContext::evaluate` is the
     real `TransportConstraint::evaluate_activity` and `GoalContext::accept_route_state` is the real `update_route_schedule`
     (so the shadow tour of a multi job carries exactly the state the real code computes - or fails to compute), the cost
@@ -2089,9 +2089,9 @@ def ob_insertion_e2e(ctx, k, n_tasks, closed=True, bits=16, n_tw=1):
     order, is feasible for the independent forward simulation; for a single-task job additionally Failure => no leg is
     feasible.  (Failure of a multi-task job may miss feasible combinations: greedy by design, not claimed.)"""
     from symex import DynV
-    name = f'insertion_e2e[k={k},{"closed" if closed else "open"},tasks={n_tasks}{",tw=" + str(n_tw) if n_tw > 1 else ""}]'
+    name = f'insertion_e2e[k={k},{"closed" if closed else "open"},tasks={n_tasks}{",tw=" + str(n_tw) if n_tw > 1 else ""}{",places=" + str(n_places) if n_places > 1 else ""}]'
     res = Result(name)
-    res.bounds = (f'tour of {k} jobs ({"closed" if closed else "open"}); job with {n_tasks} task(s) (one place, {n_tw} symbolic window(s) each) in fixed order; '
+    res.bounds = (f'tour of {k} jobs ({"closed" if closed else "open"}); job with {n_tasks} task(s) ({n_places} alternative place(s) with symbolic location and duration, {n_tw} symbolic window(s) each) in fixed order; '
                   f'times integer-valued in [0,2^{bits}] (window ends may be Float::MAX); routing uninterpreted in [0,2^{bits}]; exhaustive legs; '
                   f'symbolic cost per candidate')
     t0 = time.time()
@@ -2143,14 +2143,18 @@ def ob_insertion_e2e(ctx, k, n_tasks, closed=True, bits=16, n_tw=1):
             t['windows'] = [(t['tws'], t['twe'])] + [(env.sym_f(f'task{i}_tws{w}'), env.sym_f_or_max(f'task{i}_twe{w}')) for w in range(1, n_tw)]
             for (a, b) in t['windows'][1:]:
                 env.assumptions.append(z3.Or(b.m, a.v <= b.v))
+            # alternative places: own location, duration and windows
+            t['alts'] = [t] + [dict(spec.sym_job(f'task{i}_alt{q}')) for q in range(1, n_places)]
+            for alt in t['alts'][1:]:
+                alt['windows'] = [(alt['tws'], alt['twe'])]
         holder['spec'], holder['tasks'] = spec, tasks
         rc = spec.build()
         rc = run_update(ctx, env, eng, st, rc)
         singles = []
         for t in tasks:
-            place = env.struct('jobs::Place', location=mk_option(True, t['loc'], ty='Option<usize>'), duration=t['dur'],
-                               times=VecV([EnumV('domain::TimeSpan', 0, {0: [env.time_window(a, b)]}) for a, b in t['windows']]))
-            singles.append(ArcV(Cell(env.struct('jobs::Single', places=VecV([place]), dimens=StateV()))))
+            places = [env.struct('jobs::Place', location=mk_option(True, alt['loc'], ty='Option<usize>'), duration=alt['dur'],
+                                 times=VecV([EnumV('domain::TimeSpan', 0, {0: [env.time_window(a, b)]}) for a, b in alt['windows']])) for alt in t['alts']]
+            singles.append(ArcV(Cell(env.struct('jobs::Single', places=VecV(places), dimens=StateV()))))
         env.services = [s.cell for s in singles]
         st.user_services = list(env.services)
         route_costs = env.struct('insertions::InsertionCost', data=VecV([FV.const(0)]))
@@ -2182,12 +2186,15 @@ def ob_insertion_e2e(ctx, k, n_tasks, closed=True, bits=16, n_tw=1):
             d = {'loc': _ev_int(model, j['loc'].t), 'dur': _ev_f(model, j['dur']), 'tws': _ev_f(model, j['tws']), 'twe': _ev_f(model, j['twe'])}
             if len(j.get('windows', [])) > 1:
                 d['windows'] = [[_ev_f(model, a), _ev_f(model, b)] for a, b in j['windows']]
+            if len(j.get('alts', [])) > 1:
+                d['alts'] = [{'loc': _ev_int(model, a['loc'].t), 'dur': _ev_f(model, a['dur']), 'windows': [[_ev_f(model, x), _ev_f(model, y)] for x, y in a['windows']]} for a in j['alts']]
             return d
         return make_case('insertion_e2e', env, spec, model, extra={'tasks': [job(t) for t in tasks]})
 
     for st, out in paths:
         spec, tasks = holder['spec'], holder['tasks']
-        assume = spec.matrix_assumptions(spec.jobs + tasks) + [spec.feasible()]
+        all_alts = [a for t in tasks for a in t['alts']]
+        assume = spec.matrix_assumptions(spec.jobs + all_alts) + [spec.feasible()]
         if out is None:
             if not no_panic(ctx, res, env, st, assume, what=name):
                 break
@@ -2211,8 +2218,9 @@ def ob_insertion_e2e(ctx, k, n_tasks, closed=True, bits=16, n_tw=1):
                 placed.append((ti, idx))
                 # the activity that is returned (and would be inserted) carries the chosen window: simulate with THAT window
                 rs, re_ = env.act_field(a, 'place.time.start'), env.act_field(a, 'place.time.end')
-                used.append(dict(tasks[ti], tws=rs, twe=re_) if ti < len(tasks) else None)
-                member.append(z3.Or(*[z3.And(f_eq(rs, wa), f_eq(re_, wb)) for wa, wb in tasks[ti]['windows']]))
+                rl, rd = env.act_field(a, 'place.location'), env.act_field(a, 'place.duration')
+                used.append({'name': 'returned', 'loc': rl, 'dur': rd, 'tws': rs, 'twe': re_})
+                member.append(z3.Or(*[z3.And(rl.t == alt['loc'].t, f_eq(rd, alt['dur']), f_eq(rs, wa), f_eq(re_, wb)) for alt in tasks[ti]['alts'] for wa, wb in alt['windows']]))
             if [p[0] for p in placed] != list(range(n_tasks)):
                 res.status, res.detail = 'inconclusive', f'tasks returned in order {[p[0] for p in placed]} (structural; no replay)'
                 break
@@ -2245,8 +2253,8 @@ def ob_insertion_e2e(ctx, k, n_tasks, closed=True, bits=16, n_tw=1):
                 if not no_panic(ctx, res, env, st, assume, what=name):
                     break
                 continue
-            claim = z3.And(*[z3.Not(spec.feasible(spec.jobs[:p] + [dict(tasks[0], tws=wa, twe=wb)] + spec.jobs[p:])) for p in range(n_legs) for wa, wb in tasks[0]['windows']])
-            what = f'{name}: failure => no leg is feasible (for any window)'
+            claim = z3.And(*[z3.Not(spec.feasible(spec.jobs[:p] + [dict(alt, tws=wa, twe=wb)] + spec.jobs[p:])) for p in range(n_legs) for alt in tasks[0]['alts'] for wa, wb in alt['windows']])
+            what = f'{name}: failure => no leg is feasible (for any place and window)'
             saw_fail = saw_fail or witness(ctx, res, env, st, z3.BoolVal(True), assume)
         res.claims += 0
         if not decide_claim(ctx, res, env, st, claim, assume, what=what):
